@@ -101,7 +101,7 @@ pub fn eval(c: &Case, st: &mut Stats, excuse_kf: bool) -> Result<Verdict, String
     // the original's queue order, read off a twin of the prefix that is drained
     let (twin, _) = run_history(&c.prefix, false, false);
     let gen_t = UuidGenerator::new(uuid::Uuid::from_u128(0x7717));
-    let drained = with_step_budget(400_000, || twin.level.match_order(u64::MAX, OrderId::from_u64(0xD0), &gen_t));
+    let drained = with_step_budget(200_000_000, || twin.level.match_order(u64::MAX, OrderId::from_u64(0xD0), &gen_t));
     let mut queue_order: Vec<OrderId> = Vec::new();
     if let Ok((r, _)) = &drained {
         for t in r.transactions.as_vec() {
@@ -150,8 +150,8 @@ pub fn eval(c: &Case, st: &mut Stats, excuse_kf: bool) -> Result<Verdict, String
     // ... and the same concrete calls on the restored and the fresh level
     let gen_r = UuidGenerator::new(uuid::Uuid::from_u128(0x5eed));
     let gen_f = UuidGenerator::new(uuid::Uuid::from_u128(0x5eed));
-    let res_r: Vec<OpResult> = calls.iter().map(|c| normalise(&apply_concrete(&restored, &gen_r, c, 400_000))).collect();
-    let res_f: Vec<OpResult> = calls.iter().map(|c| normalise(&apply_concrete(&fresh, &gen_f, c, 400_000))).collect();
+    let res_r: Vec<OpResult> = calls.iter().map(|c| normalise(&apply_concrete(&restored, &gen_r, c, 200_000_000))).collect();
+    let res_f: Vec<OpResult> = calls.iter().map(|c| normalise(&apply_concrete(&fresh, &gen_f, c, 200_000_000))).collect();
     let nontrivial = resting.len() >= 2 && partial_match;
     if strict {
         st.count("case/strict");
